@@ -94,13 +94,17 @@ CLAIMS = {
         text="Static analysis: the successor function of both providers is extracted as a closed term of count and width by abstract "
              "interpretation and decided against (c+1) mod 2^w by finite case analysis over the extracted term (every count for "
              "widths <= 8, boundary counts up to 14/16 bits); returned value == old count; initial state 0; check_count's accepted "
-             "interval is decided from its guard facts in both directions; the file write-back order (read, seek(0), write successor, "
-             "return, inside the with-block) by a syntactic must-order rule; missing-file refusals from the raise log. The inductive "
-             "step (stored value always lies in the accepted interval) gives the all-histories part; crash points inside a call "
-             "and OS durability are not decided.",
-        note="Trusted: Python file/with semantics; int()/isdigit()/rstrip(). The must-order rule recognises the straight-line idiom "
-             "used today; a restructured body yields an analysis error, not a verdict.",
-        technique="ast-based abstract interpretation + finite case analysis on the extracted successor term + syntactic must-order check"),
+             "interval is decided from its guard facts in both directions. The file provider is decided on the trace of file-system "
+             "effects the interpreter records in program order (open and its mode, read*, seek, write*, truncate, close, exists, "
+             "leaving a with-block), whatever statements or helpers produce them: create_new writes the constant '0\\n' to a truncated "
+             "file; get_and_increment opens without truncation, reads before it writes, seeks to 0 in between, writes exactly "
+             "str(successor)+newline with the successor a function of the returned count, does not cut the file to another length and "
+             "leaves it closed; readers parse the first line; a new instance touches an existing file only under not exists(); "
+             "missing-file refusals from the raise log. The inductive step (stored value always lies in the accepted interval) gives the "
+             "all-histories part; crash points inside a call and OS durability are not decided.",
+        note="Trusted: Python file/with semantics; int()/isdigit()/rstrip(). Written text that cannot be decomposed into literal pieces and "
+             "str() of integer terms yields an analysis error, not a verdict.",
+        technique="ast-based abstract interpretation + finite case analysis on the extracted successor term + ordering rules over the interpreter's file-effect trace"),
     "C20": dict(
         text="Static analysis: both struct-specifier tables are constant-evaluated and compared with the reference; for every width the "
              "constructor, the fixed-width subclasses, both generator entry points and the value setter (integer and octet form) are "
@@ -173,15 +177,18 @@ CLAIMS = {
         technique=TECH + "; empty-escape-set (purity) check from the raise log"),
     "C13": dict(
         text="Static analysis of the per-call structural conditions from which lossless ordered reassembly follows by induction over "
-             "parser calls: the statement skeleton of parse_space_packets and its helper is matched on the syntax tree and every "
-             "expression in it is evaluated to a gated term and compared semantically: drain consumes the whole queue first-in "
-             "first-out; every exit of the scan loop re-queues buf[idx:] or is taken only after the helper re-queued it (non-zero "
-             "code exactly on that path); short-header test idx+6 > len; a returned packet is buf[idx:idx+total] and the index "
-             "advances by exactly total, otherwise by exactly 1; scanned id and length field positions/masks equal the C01 layout. "
-             "The universally quantified statement over fragmentations is NOT decided; only these necessary conditions are.",
-        note="Trusted: the induction argument in DESIGN.md 4/C13; deque semantics. A restructured function body yields an analysis "
-             "error (exit 2), never a violation.",
-        technique="structured syntax-tree must-pass analysis with abstract interpretation of the matched expressions (gated terms, linear forms)"),
+             "parser calls. The drain loop (while queue: buffer.extend(queue.popleft())) is located on the syntax tree, in the function "
+             "or one helper; everything else is decided on interpreter terms whatever the statements look like: ONE iteration of the scan "
+             "loop is interpreted from an arbitrary loop-head state (helpers inlined, list arguments by reference) and each outcome is "
+             "followed to the function's return and compared with the reference step relation: the loop is left only when fewer than 6 "
+             "octets remain or a registered id heads an incomplete packet, and the call then leaves the queue as exactly [buf[idx:]] "
+             "(nothing when idx == len) and returns the result list unchanged; a continuing iteration has a full header, at a registered "
+             "id appends exactly buf[idx:idx+total] and advances by total = length field + 7, otherwise advances by exactly 1; the "
+             "scanned id is the 13-bit packet id of the C01 layout (bit-provenance comparison) tested against the raw() words of the given "
+             "ids. The universally quantified statement over fragmentations is NOT decided; only these necessary conditions are.",
+        note="Trusted: the induction argument in DESIGN.md 4/C13; deque semantics. A scan loop that carries further state between "
+             "iterations is reported as undecided for the step relation (the peeled whole-part analysis still runs).",
+        technique="ast-based abstract interpretation of one loop iteration (gated terms) + linear entailment with propositional membership atoms + syntax-tree location of the drain loop"),
     "C11": dict(
         text="Static analysis of the mutation clauses without a reference table: for every documented setter the object is packed once "
              "(caches exist), mutated, packed again, and the octet stream and reported length are compared cell for cell with those of "
